@@ -32,6 +32,7 @@
 //                                            channels are all READY, each completed with an error at once => burst=<picks per slot>
 //   pool pick call=<id> picker=<n> m=<method> ctx=gcp|gcpnoreply|none dl=<abs ns>|none req=<shape>
 //   pool ctxdone call=<id>                   cancel the context of a waiting round-robin BIND pick
+//   pool done call=<id> err=discarded reply=/   (gRPC discards the pick: Done(DoneInfo{}))
 //   pool done call=<id> err=nil|other[.notfound|.canceled|.internal|.exhausted|.aborted|.plain]|declient|deserver reply=<key>/<k1,k2>
 // Events: new sc= a= | newfail | connect sc= | upd sc= a= | remove sc= |
 //         state <S> picker=<n> err:<tf|nosc> | state <S> picker=<n> gcp:<slot.slot...> |
@@ -701,6 +702,12 @@ func (h *vPool) exec(line string) string {
 		case "deserver":
 			err = status.Error(codes.DeadlineExceeded, "deadline exceeded on the server")
 		}
+		if a["err"] == "discarded" {
+			// gRPC found no ready transport on the SubConn it was handed: Done with no error, nothing sent, nothing
+			// received, no reply (it then picks again)
+			res = guarded(func() string { c.done(balancer.DoneInfo{}); return "ok" })
+			break
+		}
 		if c.reply != nil {
 			r := a["reply"]
 			if i := strings.IndexByte(r, '/'); i >= 0 {
@@ -709,7 +716,10 @@ func (h *vPool) exec(line string) string {
 				c.reply.Key = r
 			}
 		}
-		res = guarded(func() string { c.done(balancer.DoneInfo{Err: err}); return "ok" })
+		res = guarded(func() string {
+			c.done(balancer.DoneInfo{Err: err, BytesSent: true, BytesReceived: err == nil})
+			return "ok"
+		})
 	default:
 		return "bad-op"
 	}
@@ -1970,6 +1980,9 @@ func (g *vGen) doneLine() string {
 		reply = "/" + g.key() + "," + g.key()
 	}
 	e := errs[r.Intn(len(errs))]
+	if r.Intn(30) == 0 {
+		return fmt.Sprintf("pool done call=%d err=discarded reply=/", id)
+	}
 	if e == "declient" && r.Intn(5) == 0 {
 		g.maxAddr++
 		return fmt.Sprintf("pool doneccs call=%d addrs=%d", id, g.maxAddr)
